@@ -35,6 +35,7 @@ type Clause struct {
 }
 
 type LoopSpec struct {
+	Lets     []*Clause // let name = expr, evaluated once at loop entry
 	Key      string
 	Invs     []*Clause
 	Modifies []*Clause
@@ -66,6 +67,7 @@ type FuncSpec struct {
 	Line     int
 	Lets     []*Clause // let name = expr (evaluated in pre-state)
 	Cases    []*Clause // case name: cond — the function is verified once per case, cond added to requires
+	Sets     []*Clause // sets g = expr: ghost assignment performed at the normal return
 	Uses     []*Clause // use lemma(args): instantiate a proved lemma before the postconditions
 	Wits     []*Clause // witness name = expr (reported from counterexamples)
 	Replay   string
@@ -131,7 +133,7 @@ func newSpecDB0() *SpecDB {
 }
 
 var clauseKw = map[string]bool{"requires": true, "ensures": true, "modifies": true, "panics": true, "props": true,
-	"loop": true, "invariant": true, "pure": true, "stable": true, "assumed": true, "concurrent": true, "noinline": true, "unroll": true, "let": true, "decreases": true, "witness": true, "replay": true, "case": true, "use": true, "objinv": true}
+	"loop": true, "invariant": true, "pure": true, "stable": true, "assumed": true, "concurrent": true, "noinline": true, "unroll": true, "let": true, "decreases": true, "witness": true, "replay": true, "case": true, "use": true, "objinv": true, "sets": true}
 var topKw = map[string]bool{"ilemma": true, "func": true, "iface": true, "callback": true, "ghost": true, "spec": true, "lemma": true}
 
 func firstWord(s string) (string, string) {
@@ -381,6 +383,17 @@ func (db *SpecDB) loadFile(path, pkgPath string) error {
 					return fail(err.Error())
 				}
 				cur.Cases = append(cur.Cases, &Clause{Kind: "case", Label: strings.TrimSpace(rest[:j]), Text: rest[j+1:], Expr: e, Line: it.line, File: path})
+			case "sets":
+				rest = strings.TrimSpace(rest)
+				j := strings.Index(rest, "=")
+				if j < 0 {
+					return fail("sets GHOST = expr")
+				}
+				e, err := parseExpr(rest[j+1:])
+				if err != nil {
+					return fail(err.Error())
+				}
+				cur.Sets = append(cur.Sets, &Clause{Kind: "sets", Label: strings.TrimSpace(rest[:j]), Text: rest[j+1:], Expr: e, Line: it.line, File: path})
 			case "let", "witness":
 				rest = strings.TrimSpace(rest)
 				j := strings.Index(rest, "=")
@@ -392,7 +405,9 @@ func (db *SpecDB) loadFile(path, pkgPath string) error {
 					return fail(err.Error())
 				}
 				cl := &Clause{Kind: w, Label: strings.TrimSpace(rest[:j]), Text: rest[j+1:], Expr: e, Line: it.line, File: path}
-				if w == "let" {
+				if w == "let" && curLoop != nil {
+					curLoop.Lets = append(curLoop.Lets, cl)
+				} else if w == "let" {
 					cur.Lets = append(cur.Lets, cl)
 				} else {
 					cur.Wits = append(cur.Wits, cl)
